@@ -1,10 +1,13 @@
 // c14stress: 2 processes x 16 goroutines append to one record file (run with -race).
 // Every call must either fail or return a distinct index holding its record; the file must be
 // initial + one record per success; a final append must succeed.
+// Second use after an I/O error: every 8th call of a goroutine is preceded by an append to /dev/full (the write(2) is
+// refused with ENOSPC, as on a full volume); such a call must fail and must leave nothing behind for the calls after it.
 package main
 
 import (
 	"encoding/binary"
+	"errors"
 	"fmt"
 	"os"
 	"os/exec"
@@ -12,16 +15,45 @@ import (
 	"strconv"
 	"strings"
 	"sync"
+	"syscall"
 
 	"github.com/Ptt-official-app/go-pttbbs/cmsys"
 )
 
 const sz = 16
 
+// a write(2) to this file is refused with ENOSPC
+func refusesWrites(p string) bool {
+	f, err := os.OpenFile(p, os.O_WRONLY, 0)
+	if err != nil {
+		return false
+	}
+	defer f.Close()
+	_, err = f.Write([]byte{1})
+	return errors.Is(err, syscall.ENOSPC)
+}
+
+// the "full" device (1:7) under a private name: a node of its own if mknod is permitted, else a symbolic link to /dev/full.
+// The code under test never gets the path /dev/full itself (a tree that unlinks what it appends to would destroy the node).
+func makeFull(dir string) string {
+	p := filepath.Join(dir, ".DIR.full")
+	if err := syscall.Mknod(p, syscall.S_IFCHR|0o666, 1<<8|7); err == nil {
+		if refusesWrites(p) {
+			return p
+		}
+		os.Remove(p)
+	}
+	os.Symlink("/dev/full", p)
+	return p
+}
+
 func worker(file string, proc int, per int) {
+	full := filepath.Join(filepath.Dir(file), ".DIR.full")
+	refuses := refusesWrites(full)
 	var wg sync.WaitGroup
 	var mu sync.Mutex
 	res := []string{}
+	nRefused := 0 // calls that failed in their write(2) with ENOSPC
 	for g := 0; g < 16; g++ {
 		wg.Add(1)
 		go func(g int) {
@@ -32,6 +64,19 @@ func worker(file string, proc int, per int) {
 				binary.LittleEndian.PutUint32(rec[4:], uint32(g))
 				binary.LittleEndian.PutUint32(rec[8:], uint32(k))
 				binary.LittleEndian.PutUint32(rec[12:], 0xfeedbeef)
+				if refuses && k%8 == 0 {
+					lost := make([]byte, sz) // never stored anywhere: must not show up in the record file
+					copy(lost, rec)
+					binary.LittleEndian.PutUint32(lost[12:], 0xdeadf011)
+					_, err := cmsys.AppendRecord(full, lost, sz)
+					mu.Lock()
+					if err == nil {
+						res = append(res, "REFUSED-WRITE-REPORTED-AS-SUCCESS")
+					} else if errors.Is(err, syscall.ENOSPC) {
+						nRefused++
+					}
+					mu.Unlock()
+				}
 				idx, err := cmsys.AppendRecord(file, rec, sz)
 				if err == nil {
 					mu.Lock()
@@ -42,6 +87,7 @@ func worker(file string, proc int, per int) {
 		}(g)
 	}
 	wg.Wait()
+	res = append(res, fmt.Sprintf("REFUSED %d", nRefused))
 	fmt.Println(strings.Join(res, "\n"))
 }
 
@@ -52,10 +98,15 @@ func main() {
 		worker(os.Args[2], p, n)
 		return
 	}
+	os.Exit(run()) // run's deferred clean-up happens on the FAIL paths as well
+}
+
+func run() int {
 	dir, _ := os.MkdirTemp("", "verifc14s")
 	defer os.RemoveAll(dir)
 	file := filepath.Join(dir, ".DIR")
 	os.WriteFile(file, make([]byte, sz), 0o644)
+	makeFull(dir)
 	outs := make([][]byte, 2)
 	errs := make([]error, 2)
 	var wg sync.WaitGroup
@@ -72,15 +123,26 @@ func main() {
 	for p := 0; p < 2; p++ {
 		if errs[p] != nil {
 			fmt.Println("FAIL worker", p, errs[p]) // the race detector makes the worker exit non-zero
-			os.Exit(1)
+			return 1
 		}
 	}
 	fb, _ := os.ReadFile(file)
 	seen := map[int]bool{}
 	succ := 0
+	refused := 0
 	for p := 0; p < 2; p++ {
 		for _, l := range strings.Split(strings.TrimSpace(string(outs[p])), "\n") {
 			if l == "" {
+				continue
+			}
+			if l == "REFUSED-WRITE-REPORTED-AS-SUCCESS" {
+				fmt.Println("FAIL an append whose write the OS refused (ENOSPC) returned without error")
+				return 1
+			}
+			if strings.HasPrefix(l, "REFUSED ") {
+				var k int
+				fmt.Sscanf(l, "REFUSED %d", &k)
+				refused += k
 				continue
 			}
 			var pp, g, k, idx int
@@ -88,24 +150,29 @@ func main() {
 			succ++
 			if seen[idx] {
 				fmt.Println("FAIL index returned twice:", idx)
-				os.Exit(1)
+				return 1
 			}
 			seen[idx] = true
 			off := (idx - 1) * sz
 			if idx < 2 || off+sz > len(fb) || binary.LittleEndian.Uint32(fb[off:]) != uint32(pp) || binary.LittleEndian.Uint32(fb[off+4:]) != uint32(g) ||
 				binary.LittleEndian.Uint32(fb[off+8:]) != uint32(k) || binary.LittleEndian.Uint32(fb[off+12:]) != 0xfeedbeef {
+				if off+sz <= len(fb) && binary.LittleEndian.Uint32(fb[off+12:]) == 0xdeadf011 {
+					fmt.Println("FAIL the record at returned index", idx, "is the record of a call that had failed (write refused by the OS, other file)")
+					return 1
+				}
 				fmt.Println("FAIL record not intact at index", idx)
-				os.Exit(1)
+				return 1
 			}
 		}
 	}
 	if len(fb) != sz*(1+succ) {
 		fmt.Printf("FAIL file length %d != %d\n", len(fb), sz*(1+succ))
-		os.Exit(1)
+		return 1
 	}
 	if _, err := cmsys.AppendRecord(file, make([]byte, sz), sz); err != nil {
 		fmt.Println("FAIL late append:", err)
-		os.Exit(1)
+		return 1
 	}
-	fmt.Printf("ok: %d successes of %d calls, %d bytes, no race report\n", succ, 2*16*300, len(fb))
+	fmt.Printf("ok: %d successes of %d calls, %d bytes, %d more calls failed in their write (ENOSPC, other file), no race report\n", succ, 2*16*300, len(fb), refused)
+	return 0
 }
